@@ -55,6 +55,27 @@ pub enum Slot {
     R(IpcReceiver<Msg>),
     BR(IpcBytesReceiver),
     M(IpcSharedMemory),
+    /// a receiver embedded through a shared pointer: the program keeps its handle after the send and can see
+    /// whether it was really moved out (C04: "the handle it was sent from receives nothing further")
+    RR(SharedRecv),
+}
+
+pub struct SharedRecv(pub std::rc::Rc<IpcReceiver<Msg>>);
+
+// A message type must be Send for its channel endpoints to move between the harness' threads. The pointer is never
+// actually shared across threads: the sending side's clones stay inside one `send` call, a received one is unique.
+unsafe impl Send for SharedRecv {}
+
+impl Serialize for SharedRecv {
+    fn serialize<S: serde::Serializer>(&self, serializer: S) -> Result<S::Ok, S::Error> {
+        (*self.0).serialize(serializer)
+    }
+}
+
+impl<'de> Deserialize<'de> for SharedRecv {
+    fn deserialize<D: serde::Deserializer<'de>>(deserializer: D) -> Result<Self, D::Error> {
+        IpcReceiver::<Msg>::deserialize(deserializer).map(|r| SharedRecv(std::rc::Rc::new(r)))
+    }
 }
 
 pub enum Handle {
@@ -265,6 +286,7 @@ impl Agent {
             };
         }
         let mut slots = Vec::new();
+        let mut ghosts: Vec<std::rc::Rc<IpcReceiver<Msg>>> = Vec::new();
         for (i, sp) in slots_spec.iter().enumerate() {
             let k = gets(sp, "k");
             let sh = geti(sp, "h");
@@ -282,7 +304,15 @@ impl Agent {
                     _ => return json!({"error": "send: sender slot not held"}),
                 },
                 "R" => match self.handles.remove(&sh) {
-                    Some(Handle::R(r)) => Slot::R(r),
+                    Some(Handle::R(r)) => {
+                        if (tag as usize + i) % 2 == 0 {
+                            let rc = std::rc::Rc::new(r);
+                            ghosts.push(rc.clone());
+                            Slot::RR(SharedRecv(rc))
+                        } else {
+                            Slot::R(r)
+                        }
+                    },
                     Some(Handle::BR(r)) => Slot::BR(r),
                     _ => return json!({"error": "send: receiver slot not held"}),
                 },
@@ -300,13 +330,26 @@ impl Agent {
             slots,
             tail: Tail(op.get("fail").and_then(|b| b.as_bool()).unwrap_or(false)),
         };
-        match self.handles.get(&h) {
+        let mut out = match self.handles.get(&h) {
             Some(Handle::S(s)) => match s.send(msg) {
                 Ok(()) => json!({"res": "ok"}),
                 Err(e) => json!({"res": "err", "detail": format!("{:?}", e)}),
             },
             _ => json!({"error": "send on a handle that is not a sender"}),
+        };
+        // a receiver that was embedded has been moved out of the handle it was sent from: that handle is dead now
+        // (not on the in-process transport: there a moved-out handle panics when used, which is just as dead)
+        #[cfg(feature = "inprocess")]
+        ghosts.clear();
+        for g in ghosts {
+            match g.try_recv() {
+                Ok(_) | Err(TryRecvError::Empty) | Err(TryRecvError::IpcError(IpcError::Disconnected)) => {
+                    out["ghost"] = json!("the handle a receiver was sent from is still attached to the channel after the send");
+                },
+                Err(_) => {},
+            }
         }
+        out
     }
 
     fn recv(&mut self, op: &Value) -> Value {
@@ -385,6 +428,10 @@ impl Agent {
                         Slot::OS(s) => ("S", Some(Handle::S(s.to::<Msg>()))),
                         Slot::BS(s) => ("S", Some(Handle::BS(s))),
                         Slot::R(r) => ("R", Some(Handle::R(r))),
+                        Slot::RR(sr) => match std::rc::Rc::try_unwrap(sr.0) {
+                            Ok(r) => ("R", Some(Handle::R(r))),
+                            Err(_) => ("R", None),
+                        },
                         Slot::BR(r) => ("R", Some(Handle::BR(r))),
                         Slot::M(r) => {
                             // the region must hold the bytes it was created with, whichever position it travelled in
@@ -424,6 +471,9 @@ pub fn mismatch(op: &Value, obs: &Value) -> Option<String> {
     }
     match gets(op, "op") {
         "send" | "probe" => {
+            if let Some(g) = obs.get("ghost").and_then(|x| x.as_str()) {
+                return Some(g.to_string());
+            }
             if gets(op, "res") != gets(obs, "res") {
                 return Some(format!(
                     "send: model says {}, code says {} ({})",
